@@ -88,7 +88,9 @@ def chainStep (t : UInt8) (b : Bytes) : Res (Option Payload × UInt8 × Nat) :=
       let fl ← goIndex b 1
       let critical := (fl &&& 0x80) >>> 7
       let next ← goIndex b 0
-      if knownType t then do
+      if knownType t then
+        -- `case TypeSK`: an Encrypted payload must be the last payload
+        if t == Facts.typeSK && b.length ≠ pl.toNat then .err else do
         let body ← goSlice b 4 pl.toNat
         let p ← unmarshalPayload t next body
         .ok (some p, next, pl.toNat)
